@@ -3,7 +3,7 @@ import functools
 import os
 from fractions import Fraction as F
 
-from sim.chart import Cfg, swarm, gen_spec
+from sim.chart import Cfg, swarm, gen_spec, HIST
 from sim.engine import Result, Abandon, fp, REPO
 from sim.probes import SimClock, SkewClock
 from sim.semrun import Sim, standard_ops, replay_script, legal_or_abandon
@@ -22,7 +22,7 @@ BLOCK = 20
 STREAM_ORDER = ['ops', 'guards', 'chart', 'cfg']
 RULE = ('twin interpreters on the same chart and the same seeded script, ignore_contract=False (every condition true) vs True; lock-step '
         'equality of macro steps, configurations, contexts, sent events and the meta-event stream seen by an attached listener; the '
-        'ignoring twin is run a second time with every condition false and must behave identically with zero condition evaluations; in half of the runs both twins use an evaluator that returns lists (as the Evaluator interface documents) instead of lazy iterators; in a third of the runs every twin also has a property statechart with contracts bound the deprecated way, as an interpreter built with ignore_contract=True, whose conditions must never be evaluated. '
+        'ignoring twin is run a second time with every condition false and must behave identically with zero condition evaluations; in half of the runs both twins use an evaluator that returns lists (as the Evaluator interface documents) instead of lazy iterators; in a third of the runs every twin also has a property statechart with contracts bound the deprecated way, as an interpreter built with ignore_contract=True, whose conditions must never be evaluated; when conditions use after() / idle(), half of the states also carry a postcondition and half of the transitions an invariant that ask them about a state that has just been left. '
         'One run in four uses the shipped elevator_contract.yaml / microwave_with_contracts.yaml driven by seeded domain events and clock '
         'advances (comparison covers the steps before a legitimately failing condition). non-trivial = a twin run with >= 1 evaluated '
         'condition and >= 2 macro steps; distinct = distinct (chart, script)')
@@ -121,6 +121,16 @@ def run_generated(ch, tier):
     # in half of the runs both twins use an evaluator that returns lists instead of lazy iterators
     klass = functools.partial(Interpreter, evaluator_klass=ListEvaluator) if ch.s('cfg').flag(1, 2) else Interpreter
     sp = gen_spec(ch.s('chart'), cfg)
+    if cfg.time_obs:
+        # conditions evaluated when their state is no longer active: state postconditions that ask after(), transition
+        # invariants that ask idle() about a source state that has just been left
+        tp = ch.s('chart')
+        for k_, n_ in enumerate(sorted(sp.states)):
+            if sp.states[n_].kind not in HIST and tp.flag(1, 2):
+                sp.states[n_].tpost = [(9000 + k_, tp.pick([0, 1, 2, 0.5]))]
+        for t_ in sp.trans:
+            if tp.flag(1, 2):
+                t_.tinv_idle = tp.pick([0, 1, 2, 0.5])
     a = Sim(sp, ignore_contract=False, clock=mkclock(), interpreter_klass=klass)
     ra = Rec(a.it)
     watched = ch.s('cfg').flag(1, 3)
@@ -167,10 +177,10 @@ def run_generated(ch, tier):
             return res.fail('twins-differ', 'meta-event streams differ at %d: checking %r, ignoring %r' % (
                 j, ra.events[j] if j < len(ra.events) else None, rb.events[j] if j < len(rb.events) else None),
                 chart=sp.describe(), variant=variant)
-        if b.P.cond_n != 0 or any(e[0] in ('cond', 'tcond') for e in b.P.log):
-            return res.fail('evaluated-while-ignoring', '%d contract conditions were evaluated with ignore_contract=True' % len([e for e in b.P.log if e[0] in ('cond', 'tcond')]),
+        if b.P.cond_n != 0 or any(e[0] in ('cond', 'tcond', 'tpost', 'ttinv') for e in b.P.log):
+            return res.fail('evaluated-while-ignoring', '%d contract conditions were evaluated with ignore_contract=True' % len([e for e in b.P.log if e[0] in ('cond', 'tcond', 'tpost', 'ttinv')]),
                             chart=sp.describe(), variant=variant)
-        if [e for e in b.P.log if e[0] not in ('cond', 'tcond')] != [e for e in a.P.log if e[0] not in ('cond', 'tcond')]:
+        if [e for e in b.P.log if e[0] not in ('cond', 'tcond', 'tpost', 'ttinv')] != [e for e in a.P.log if e[0] not in ('cond', 'tcond', 'tpost', 'ttinv')]:
             return res.fail('twins-differ', 'executed code differs between the twins', chart=sp.describe(), variant=variant)
     if any(h.n for h in hits):
         return res.fail('evaluated-while-ignoring', 'a bound property statechart whose interpreter was built with ignore_contract=True evaluated '
